@@ -222,9 +222,8 @@ C12ShareReqs == {[host |-> h, m |-> GET, path |-> pA, hdr |-> Hdr2(None, None), 
 (* stored for one host, then one for the other (found past other filters), then the first is asked  *)
 (* for again by a client on whom the two rules' filters disagree.  What is kept with one stored     *)
 (* result must not change when another result is stored.                                            *)
-C12TenantShells == {FShell(hH, Block9), FShell(hH, Block5), FShell(hHG, Block9), FShell(hHG, Block5), FShell(hHG, Allow1),
-                    FShell(None, NoFilter)}
-C12TenantFocus == {uPlainA, uPrefixGet, uABlock5, uBBlock9}
+C12TenantShells == {FShell(hH, Block9), FShell(hH, Block5), FShell(hHG, Block9), FShell(hHG, Block5), FShell(hHG, Allow1)}
+C12TenantFocus == {uPlainA, uPrefixGet, uABlock5}
 C12TenantReqs == {[host |-> h, m |-> GET, path |-> p, hdr |-> Hdr2(None, None), ip |-> ip] :
                      h \in {hH, hHG}, p \in {pA, pB}, ip \in {ip1, ip5, ip9}}
 (* header-key focus: entries conditioned on two different headers (one of them, any of them, all of *)
